@@ -16,10 +16,22 @@ Deferred is cancelled.  Oracle: the observation log written by the program
 itself and the final outcome equal those of the synchronous reference (with a
 cancelled await's outcome replaced by what its canceller produces,
 CancelledError by default); cancel() reaches exactly the currently awaited
-Deferred; the returned Deferred fires exactly once.
+Deferred; the returned Deferred fires exactly once - as soon as the function has
+run to its end, whatever the type of its uncaught exception.
+
+Exception types: the program's raise nodes, the failures of the awaited
+Deferreds and what a failing canceller produces are drawn (per-run weight, 0 in a
+third of the runs) also from BaseException subclasses that are NOT Exception
+subclasses - a harness-defined one (Stop) and the two real ones, KeyboardInterrupt
+and SystemExit; handlers may name them or BaseException.  The synchronous
+reference treats them like any other exception.  Every call into the code under
+test sits in an `Escape` block that turns an exception of ANY type escaping from
+it into a violation (a leaked SystemExit must not end the worker process).
 """
 from twisted.internet import defer
 from twisted.python.failure import Failure
+
+from detsim.sim import StepLimit, Violation
 
 ID = "C05"
 ENGINE = "tasks"
@@ -37,12 +49,17 @@ COMPONENTS = {"real": ["twisted.internet.defer.inlineCallbacks", "twisted.intern
 RULE = ("run = one random program tree (<=40 nodes, function nesting <=3, mixed generator/coroutine nesting) over a pool of 1..10 Deferreds "
         "(each: success or failure outcome, pre-fired or not, canceller in {none, noop, fires success, fires failure}; in 60% of the runs also a shape: "
         "plain / already called back but waiting on another Deferred / called back while paused, and optionally a last callback that transforms the value); "
+        "exception types of raise nodes, Deferred failures, canceller failures and handlers include (weight knob, off in 1/3 of the runs) BaseException "
+        "subclasses outside Exception: a harness-defined Stop, KeyboardInterrupt, SystemExit (handlers also `except BaseException`); "
         "while the program is suspended the tape fires the awaited Deferred, fires it from inside the last callback of the Deferred the program awaits next, "
         "fires another pool Deferred early, or cancels the returned Deferred; "
         "non-trivial = the program suspended at least once AND (a cancellation hit a suspension, or an exception was observed at an await, "
         "or a nested function was called)")
 ASSUMPTIONS = ["each Deferred is awaited at most once (the k-th executed await uses pool Deferred k)",
                "cancellers act only on their own Deferred and do not raise",
+               "KeyboardInterrupt / SystemExit raised by the function or carried by an awaited Deferred's failure are outcomes of the function like any "
+               "other exception (the statement says 'uncaught exception' without restriction, and the unchanged code has a single `except BaseException`); "
+               "GeneratorExit and StopIteration are never used as program exceptions",
                "in coroutine form 'await plain value' is written `await succeed(value)` (a coroutine cannot await a non-awaitable)"]
 
 MAX_POOL = 10
@@ -54,6 +71,10 @@ class E1(Exception):
 
 class E2(Exception):
     pass
+
+
+class Stop(BaseException):
+    """Harness-defined exception deriving from BaseException but NOT from Exception (an application-level "stop" class)."""
 
 
 class Ret(BaseException):
@@ -74,13 +95,50 @@ class CountingDeferred(defer.Deferred):
         defer.Deferred.cancel(self)
 
 
-EXC = {"E1": E1, "E2": E2, "Cancelled": defer.CancelledError, "Exception": Exception}
+EXC = {"E1": E1, "E2": E2, "Cancelled": defer.CancelledError, "Exception": Exception,
+       # exception types outside the Exception hierarchy: a harness-defined one and the two real ones an application meets
+       "Stop": Stop, "KeyboardInterrupt": KeyboardInterrupt, "SystemExit": SystemExit, "BaseException": BaseException}
+BARE = ("Stop", "KeyboardInterrupt", "SystemExit")      # BaseException subclasses that are not Exception subclasses
+
+
+def program_exc(e):
+    """True for an exception that belongs to the interpreted program (raised by one of its raise nodes, the failure of an
+    awaited Deferred, or what the code under test makes of them), as opposed to the interpreter's own machinery (`return`,
+    close of an abandoned generator) - a synchronous program's try statements see exactly these."""
+    return not isinstance(e, (Ret, GeneratorExit))
+
+
+def _ours(e):
+    # every exception the scenario creates carries a tag as first argument; a watchdog of the runner or a real Ctrl-C does not
+    return bool(e.args) and e.args[0] in ("p", "e", "ce")
+
+
+class Escape:
+    """`with Escape(sim, clause, witness):` around EVERY call into the code under test: an exception that escapes from it -
+    including a BaseException that is not an Exception, e.g. a SystemExit or KeyboardInterrupt of the program that should have
+    gone into the returned Deferred - is the violation `clause` and the run ends normally (sim.guard lets those pass, and a
+    leaked SystemExit would silently end the worker process)."""
+
+    def __init__(self, sim, clause, witness):
+        self.sim, self.clause, self.witness = sim, clause, witness
+
+    def __enter__(self):
+        return self
+
+    def __exit__(self, et, ev, tb):
+        if et is None or issubclass(et, (Violation, StepLimit)):
+            return False
+        if not issubclass(et, Exception) and not _ours(ev):
+            return False            # the runner's watchdogs
+        self.sim.check(self.clause, False, "%s:%s" % (self.witness, et.__name__),
+                       "%s%r escaped from the code under test" % (et.__name__, ev.args))
+        return False
 
 
 # --------------------------------------------------------------------------- program generation
 
 def gen_tree(sim, st, depth, fdepth):
-    """Return a node.  st = {'nodes': count, 'id': counter}."""
+    """Return a node.  st = {'nodes': count, 'id': counter, 'bare_w': weight of the non-Exception exception types}."""
     st["nodes"] += 1
     st["id"] += 1
     nid = st["id"]
@@ -98,7 +156,7 @@ def gen_tree(sim, st, depth, fdepth):
     if k == "return":
         return ("return", nid)
     if k == "raise":
-        return ("raise", nid, sim.draw_choice(["E1", "E2"], "exc"))
+        return ("raise", nid, sim.draw_weighted([("E1", 4), ("E2", 4)] + [(t, st["bare_w"]) for t in BARE], "exc"))
     if k == "seq":
         return ("seq", nid, [gen_tree(sim, st, depth + 1, fdepth) for _ in range(sim.draw_int(2, 3, "seqlen"))])
     if k == "loop":
@@ -109,7 +167,9 @@ def gen_tree(sim, st, depth, fdepth):
     body = gen_tree(sim, st, depth + 1, fdepth)
     handlers = []
     for _ in range(sim.draw_int(0, 2, "nhandlers")):
-        handlers.append((sim.draw_choice(["E1", "E2", "Cancelled", "Exception"], "htype"), gen_tree(sim, st, depth + 1, fdepth)))
+        htype = sim.draw_weighted([("E1", 4), ("E2", 4), ("Cancelled", 4), ("Exception", 4), ("BaseException", st["bare_w"])]
+                                  + [(t, st["bare_w"]) for t in BARE], "htype")
+        handlers.append((htype, gen_tree(sim, st, depth + 1, fdepth)))
     fin = None
     if sim.draw_bool(0.5, "finally") or not handlers:
         fin = gen_tree(sim, st, depth + 1, fdepth)
@@ -164,10 +224,13 @@ class Interp:
 
     # -- generator form (driven by inlineCallbacks)
     def _gfn(self, body):
+        self.w.enter()
         try:
             yield from self.g(body)
         except Ret as r:
             return r.value
+        finally:
+            self.w.leave()
         return None
 
     def g(self, node):
@@ -177,8 +240,9 @@ class Interp:
             idx = w.begin_await()
             try:
                 v = yield w.awaitable(idx)
-            except Exception as e:
-                w.end_await(idx, ("raised", type(e).__name__, e.args))
+            except BaseException as e:
+                if program_exc(e):
+                    w.end_await(idx, ("raised", type(e).__name__, e.args))
                 raise
             w.end_await(idx, ("got", v))
         elif k == "value":
@@ -206,15 +270,16 @@ class Interp:
                     r = yield defer.ensureDeferred(self.cfn(node[4]))
                 else:
                     r = yield defer.Deferred.fromCoroutine(self.cfn(node[4]))
-            except Exception as e:
-                w.log(("callraised", node[1], type(e).__name__, e.args))
+            except BaseException as e:
+                if program_exc(e):
+                    w.log(("callraised", node[1], type(e).__name__, e.args))
                 raise
             w.log(("callret", node[1], r))
         else:
             try:
                 yield from self.g(node[2])
-            except Exception as e:
-                t, h = _match(node[3], e)
+            except BaseException as e:
+                t, h = _match(node[3], e) if program_exc(e) else (None, None)
                 if h is None:
                     raise
                 w.log(("caught", node[1], t, type(e).__name__))
@@ -226,10 +291,13 @@ class Interp:
 
     # -- coroutine form (driven by ensureDeferred)
     async def cfn(self, body):
+        self.w.enter()
         try:
             await self.c(body)
         except Ret as r:
             return r.value
+        finally:
+            self.w.leave()
         return None
 
     async def c(self, node):
@@ -239,8 +307,9 @@ class Interp:
             idx = w.begin_await()
             try:
                 v = await w.awaitable(idx)
-            except Exception as e:
-                w.end_await(idx, ("raised", type(e).__name__, e.args))
+            except BaseException as e:
+                if program_exc(e):
+                    w.end_await(idx, ("raised", type(e).__name__, e.args))
                 raise
             w.end_await(idx, ("got", v))
         elif k == "value":
@@ -268,15 +337,16 @@ class Interp:
                     r = await defer.ensureDeferred(self.cfn(node[4]))
                 else:
                     r = await defer.Deferred.fromCoroutine(self.cfn(node[4]))
-            except Exception as e:
-                w.log(("callraised", node[1], type(e).__name__, e.args))
+            except BaseException as e:
+                if program_exc(e):
+                    w.log(("callraised", node[1], type(e).__name__, e.args))
                 raise
             w.log(("callret", node[1], r))
         else:
             try:
                 await self.c(node[2])
-            except Exception as e:
-                t, h = _match(node[3], e)
+            except BaseException as e:
+                t, h = _match(node[3], e) if program_exc(e) else (None, None)
                 if h is None:
                     raise
                 w.log(("caught", node[1], t, type(e).__name__))
@@ -288,10 +358,13 @@ class Interp:
 
     # -- synchronous reference
     def sfn(self, body):
+        self.w.enter()
         try:
             self.s(body)
         except Ret as r:
             return r.value
+        finally:
+            self.w.leave()
         return None
 
     def s(self, node):
@@ -301,8 +374,9 @@ class Interp:
             idx = w.begin_await()
             try:
                 v = w.outcome(idx)
-            except Exception as e:
-                w.end_await(idx, ("raised", type(e).__name__, e.args))
+            except BaseException as e:
+                if program_exc(e):
+                    w.end_await(idx, ("raised", type(e).__name__, e.args))
                 raise
             w.end_await(idx, ("got", v))
         elif k == "value":
@@ -322,15 +396,16 @@ class Interp:
             w.log(("call", node[1]))
             try:
                 r = self.sfn(node[4])
-            except Exception as e:
-                w.log(("callraised", node[1], type(e).__name__, e.args))
+            except BaseException as e:
+                if program_exc(e):
+                    w.log(("callraised", node[1], type(e).__name__, e.args))
                 raise
             w.log(("callret", node[1], r))
         else:
             try:
                 self.s(node[2])
-            except Exception as e:
-                t, h = _match(node[3], e)
+            except BaseException as e:
+                t, h = _match(node[3], e) if program_exc(e) else (None, None)
                 if h is None:
                     raise
                 w.log(("caught", node[1], t, type(e).__name__))
@@ -348,9 +423,22 @@ class World:
         self.trace = []
         self.nawaits = 0
         self.awaiting = None
+        self.active = 0        # functions of the program entered and not yet left
+        self.entered = 0
 
     def log(self, entry):
         self.trace.append(entry)
+
+    def enter(self):
+        self.active += 1
+        self.entered += 1
+
+    def leave(self):
+        self.active -= 1
+
+    def ended(self):
+        """The top-level function has run to its end (returned or let an exception out)."""
+        return self.entered > 0 and self.active == 0
 
     def begin_await(self):
         idx = self.nawaits
@@ -399,7 +487,9 @@ def outcome_of(call):
     """Run a synchronous callable, return ('ok', value) / ('err', typename, args)."""
     try:
         return ("ok", call())
-    except Exception as e:
+    except BaseException as e:     # a synchronous caller gets a KeyboardInterrupt/SystemExit of the function like any other exception
+        if not (isinstance(e, Exception) or _ours(e)):
+            raise
         return ("err", type(e).__name__, e.args)
 
 
@@ -409,10 +499,15 @@ def run(sim):
     cancel_w = sim.draw_choice([0, 2, 6], "cancel_weight")
     early_w = sim.draw_choice([0, 2], "early_weight")
     shapes_on = sim.draw_bool(0.6, "deferred_shapes")
+    # weight of the exception types outside the Exception hierarchy (a harness-defined BaseException subclass, KeyboardInterrupt,
+    # SystemExit) among the program's raise nodes / handler types and among the failures of the awaited Deferreds; 0 = none
+    bare_w = sim.draw_choice([0, 1, 3], "bare_exception_weight")
     plan = []
     for k in range(npool):
-        out = sim.draw_weighted([("ok", 5), ("E1", 2), ("E2", 1)], "outcome")
+        out = sim.draw_weighted([("ok", 10), ("E1", 4), ("E2", 2)] + [(t, bare_w) for t in BARE], "outcome")
         canc = sim.draw_weighted([("none", 4), ("noop", 2), ("succ", 2), ("fail", 2)], "canceller")
+        # what a failing canceller fails its Deferred with
+        cexc = sim.draw_weighted([("E2", 6)] + [(t, bare_w) for t in BARE], "canceller_exc") if canc == "fail" else "E2"
         pre = sim.draw_bool(0.3, "prefire")
         # how the Deferred looks to the function that awaits it before it has an outcome: plain = never called back;
         # chained = already called back, but one of its callbacks returned a Deferred that has not fired (`called` is true,
@@ -420,10 +515,10 @@ def run(sim):
         # maps a success v to ("t", v): the Deferred's outcome is what comes out of its whole callback chain.
         shape = sim.draw_weighted([("plain", 6), ("chained", 2), ("paused", 1)], "shape") if shapes_on else "plain"
         xform = shapes_on and sim.draw_bool(0.3, "xform")
-        plan.append((out, canc, pre, shape, xform))
-    st = {"nodes": 0, "id": 0}
+        plan.append((out, canc, pre, shape, xform, cexc))
+    st = {"nodes": 0, "id": 0, "bare_w": bare_w}
     tree = gen_tree(sim, st, 0, 0)
-    sim.config = {"npool": npool, "top": top_kind, "cancel_w": cancel_w, "early_w": early_w,
+    sim.config = {"npool": npool, "top": top_kind, "cancel_w": cancel_w, "early_w": early_w, "bare_w": bare_w,
                   "plan": [list(p) for p in plan], "program": show(tree)}
     sim.event("program", top_kind, show(tree))
 
@@ -445,7 +540,7 @@ def run(sim):
         if c == "succ":
             return ("ok", ("t", ("cv", k)) if plan[k][4] else ("cv", k))
         if c == "fail":
-            return ("err", (E2, ("ce", k)))
+            return ("err", (EXC[plan[k][5]], ("ce", k)))
         return ("err", (defer.CancelledError, ()))
 
     def effective(k):
@@ -526,7 +621,7 @@ def run(sim):
         sim.event("result", "err:" + res.type.__name__ if isinstance(res, Failure) else "ok")
         return None
 
-    with sim.guard("start-raised", top_kind):
+    with Escape(sim, "start-raised", top_kind):
         if top_kind == "gen":
             top = interp.gfn(tree)
         else:
@@ -538,6 +633,9 @@ def run(sim):
     while not results:
         sim.step(600)
         k = world.awaiting
+        # the function's end (return or uncaught exception of any type) is what fires the returned Deferred
+        sim.check("fires-when-function-ends", not world.ended(), top_kind,
+                  lambda: "the function has run to its end but the returned Deferred has not fired; log tail %r" % (world.trace[-3:],))
         # the function has not finished, so it must be waiting on an unfired pool Deferred
         sim.check("suspended-on-unfired", k is not None and k < npool and k not in fired, top_kind,
                   lambda: "returned Deferred unfired, program awaiting %r, fired=%r; log tail %r" % (k, sorted(fired), world.trace[-3:]))
@@ -555,15 +653,15 @@ def run(sim):
             sim.event("fire-inside-callback-of", k + 1)
 
             def inside(k=k):
-                with sim.guard("fire-raised", "awaited-from-inside-callback"):
+                with Escape(sim, "fire-raised", "awaited-from-inside-callback"):
                     fire(k)
             hooks[k + 1] = inside
-            with sim.guard("fire-raised", "next"):
+            with Escape(sim, "fire-raised", "next"):
                 fire(k + 1)
             sim.check("resumes-on-fire", len(world.trace) > mark and world.trace[mark][:2] == ("resumed", k), top_kind,
                       lambda: "await #%d fired (from inside a callback) but the program did not observe it; log tail %r" % (k, world.trace[-3:]))
         elif op == "fire":
-            with sim.guard("fire-raised", "awaited"):
+            with Escape(sim, "fire-raised", "awaited"):
                 fire(k)
             sim.check("resumes-on-fire", len(world.trace) > mark and world.trace[mark][:2] == ("resumed", k), top_kind,
                       lambda: "await #%d fired but the program did not observe it; log tail %r" % (k, world.trace[-3:]))
@@ -575,10 +673,10 @@ def run(sim):
                 cancelled[j] = True
                 fired.add(j)
                 sim.event("cancel-early", j, plan[j][1])
-                with sim.guard("fire-raised", "other"):
+                with Escape(sim, "fire-raised", "other"):
                     pool[j].cancel()
             else:
-                with sim.guard("fire-raised", "other"):
+                with Escape(sim, "fire-raised", "other"):
                     fire(j)
             sim.check("no-spurious-resume", len(world.trace) == mark, top_kind,
                       lambda: "firing un-awaited #%d made the program advance: %r" % (j, world.trace[mark:mark + 3]))
@@ -590,7 +688,7 @@ def run(sim):
             sim.event("cancel", k, plan[k][1])
             if plan[k][1] in ("none", "noop"):
                 fired.add(k)   # Deferred.cancel() itself fails it with CancelledError
-            with sim.guard("cancel-raised", top_kind):
+            with Escape(sim, "cancel-raised", top_kind):
                 top.cancel()
             wrong = [j for j in range(npool) if j != k and pool[j].cancel_calls != cc[j]]
             sim.check("cancels-only-awaited", not wrong, top_kind,
@@ -619,10 +717,23 @@ def run(sim):
     # nothing fires the returned Deferred again
     for k in range(npool):
         if k not in fired:
-            fire(k)
+            with Escape(sim, "fire-raised", "after-the-end"):
+                fire(k)
     sim.check("fires-once", len(results) == 1, top_kind, "returned Deferred's callback ran %d times" % len(results))
     for d in pool:
         d.addErrback(lambda f: None)
+    if bare_w:
+        for e in world.trace:
+            if e[0] == "raise" and e[2] in BARE:
+                sim.probe("program_raised_" + e[2])
+            elif e[0] == "resumed" and e[2] == "raised" and e[3] in BARE:
+                sim.probe("await_raised_" + e[3])
+            elif e[0] == "callraised" and e[2] in BARE:
+                sim.probe("nested_function_ended_with_non_Exception")
+            elif e[0] == "caught" and e[3] in BARE:
+                sim.probe("non_Exception_caught_by_program")
+        if got[0] == "err" and got[1] in BARE:
+            sim.probe("function_outcome_" + got[1])
     saw_exc = any(e[0] == "resumed" and e[2] == "raised" for e in world.trace)
     called = any(e[0] == "call" for e in world.trace)
     sim.nontrivial = stats["suspensions"] > 0 and (stats["cancels"] > 0 or saw_exc or called)
@@ -640,4 +751,9 @@ MUTANTS = [
     "defer.py _handleCancelInlineCallbacks: replacement status.deferred created without canceller (second cancel lost): CAUGHT",
     "defer.py _addCancelCallbackToDeferred: existing callbacks not re-appended: CAUGHT",
     "defer.py _gotResultInlineCallbacks: waiting[0] not cleared: CAUGHT",
+    # round 4: exception types outside the Exception hierarchy
+    "defer.py _inlineCallbacks: `except (KeyboardInterrupt, SystemExit): raise` before the catch-all (seeded): CAUGHT (fires-when-function-ends / start-raised:*:SystemExit / start-raised:*:KeyboardInterrupt); survived before - all program exceptions were Exception subclasses",
+    "defer.py _inlineCallbacks: catch-all `except BaseException` -> `except Exception`: CAUGHT (fires-when-function-ends / start-raised)",
+    "defer.py _inlineCallbacks: a Failure whose value is not an Exception is sent into the generator as a value: CAUGHT (observations-equal)",
+    "defer.py _inlineCallbacks: `except SystemExit: status.deferred.callback(None)` (sys.exit() treated as a clean return): CAUGHT (outcome-equal / observations-equal)",
 ]
